@@ -246,7 +246,10 @@ def gen_case(rng):
     scn = P.gen_scenario(rng, small=rng.random() < 0.3)
     return scn, {"seed": rng.getrandbits(32), "faults": rng.random() < 0.4, "gate": rng.random() < 0.6,
                  "first_run": rng.random() < 0.15, "wipe_default": rng.random() < 0.5,
-                 "uncompressed_then_compressed": rng.random() < 0.2}
+                 "uncompressed_then_compressed": rng.random() < 0.2,
+                 # every variant (and by-hash alias) of ONE selected index persistently fails: the repository
+                 # must fail and its old tree stay live, whatever the pool stage does afterwards
+                 "index_group_fails": rng.random() < 0.15}
 
 
 def run_case(rep, scn, case, sb, tag, rows, irows=None):
@@ -280,6 +283,15 @@ def run_case(rep, scn, case, sb, tag, rows, irows=None):
             for pl in plan.values():
                 for sc in pl.values():
                     sc["rest"] = "good"
+    if case.get("index_group_fails"):
+        from .c02 import selected_groups
+        for r in scn2.repos:
+            groups = selected_groups(r, files2[r["url"]])
+            if groups:
+                g = rng.choice(sorted(groups))
+                bad = rng.choice(["missing", "error", "short", "abort"])
+                plan.setdefault(r["url"], {}).update({p: {"first": [], "rest": bad} for p in groups[g]})
+                break
     res, snaps = record_run(scn2, base, oracles, files2, plan=plan, gate=make_gate(case["seed"]) if case["gate"] else None)
     jc = {"scenario": {"repos": scn.repos, "nthreads": scn.nthreads}, "case": case, "plan": plan}
     rep.count("inode_oracle.runs")
